@@ -43,18 +43,39 @@ Lit(b, i, d, acc) ==
 
 HasPrefixAt(b, i, p) == i + Len(p) - 1 <= Len(b) /\ \A k \in 1..Len(p) : b[i + k - 1] = p[k]
 
-(* one field entry as habutax writes it:  << /T (name) /V (value) >>  *)
-P1 == <<60, 60, 32, 47, 84, 32, 40>>            \* "<< /T ("
-P2 == <<32, 47, 86, 32, 40>>                    \* " /V ("
-P3 == <<32, 62, 62>>                            \* " >>"
+(***************************************************************************)
+(* One field dictionary of the /Fields array:  << /T (name) /V (value) >>  *)
+(* read the way a PDF reader does: white space (NUL HT LF FF CR SP) between*)
+(* tokens is free, /T and /V may come in either order, each exactly once.  *)
+(* Only the layout is free -- the strings are decoded byte by byte above.  *)
+(***************************************************************************)
+IsWs(c) == c \in {0, 9, 10, 12, 13, 32}
+RECURSIVE SkipWs(_, _)
+SkipWs(b, i) == IF i <= Len(b) /\ IsWs(b[i]) THEN SkipWs(b, i + 1) ELSE i
+
+Fail(why) == [ok |-> FALSE, why |-> why]
+KeyT == <<47, 84>>      \* "/T"
+KeyV == <<47, 86>>      \* "/V"
+
+RECURSIVE KV(_, _, _)
+KV(b, i, acc) ==
+  LET j == SkipWs(b, i) IN
+  IF HasPrefixAt(b, j, <<62, 62>>) THEN
+       IF SkipWs(b, j + 2) # Len(b) + 1 THEN Fail("the value string ends early: the entry continues after it")
+       ELSE IF ~(acc.hasT /\ acc.hasV) THEN Fail("entry lacks /T or /V")
+       ELSE [ok |-> TRUE, name |-> acc.t, value |-> acc.v]
+  ELSE IF HasPrefixAt(b, j, KeyT) \/ HasPrefixAt(b, j, KeyV) THEN
+       LET isT == HasPrefixAt(b, j, KeyT)
+           p   == SkipWs(b, j + 2)
+       IN IF (isT /\ acc.hasT) \/ (~isT /\ acc.hasV) THEN Fail("a key occurs twice in one entry")
+          ELSE IF ~(p <= Len(b) /\ b[p] = LP) THEN Fail("the value of /T or /V is not a literal string")
+          ELSE LET st == Lit(b, p + 1, 0, <<>>) IN
+               IF ~st.ok THEN Fail(IF isT THEN "field name string is not terminated" ELSE "value string is not terminated")
+               ELSE KV(b, st.nxt, IF isT THEN [acc EXCEPT !.hasT = TRUE, !.t = st.val] ELSE [acc EXCEPT !.hasV = TRUE, !.v = st.val])
+  ELSE Fail("a string ends early: unexpected bytes follow it inside the entry")
 
 ParseEntry(b) ==
-  IF ~HasPrefixAt(b, 1, P1) THEN [ok |-> FALSE, why |-> "entry does not start with << /T ("]
-  ELSE LET t == Lit(b, Len(P1) + 1, 0, <<>>) IN
-       IF ~t.ok THEN [ok |-> FALSE, why |-> "field name string is not terminated"]
-       ELSE IF ~HasPrefixAt(b, t.nxt, P2) THEN [ok |-> FALSE, why |-> "the field name string ends early: /V does not follow it"]
-       ELSE LET v == Lit(b, t.nxt + Len(P2), 0, <<>>) IN
-            IF ~v.ok THEN [ok |-> FALSE, why |-> "value string is not terminated"]
-            ELSE IF ~(HasPrefixAt(b, v.nxt, P3) /\ v.nxt + Len(P3) - 1 = Len(b)) THEN [ok |-> FALSE, why |-> "the value string ends early: the entry continues after it"]
-            ELSE [ok |-> TRUE, name |-> t.val, value |-> v.val]
+  LET i == SkipWs(b, 1) IN
+  IF ~HasPrefixAt(b, i, <<60, 60>>) THEN Fail("entry does not start with <<")
+  ELSE KV(b, i + 2, [hasT |-> FALSE, hasV |-> FALSE, t |-> <<>>, v |-> <<>>])
 =============================================================================
